@@ -15,29 +15,29 @@ Arguments Z.geb : simpl never.
 Arguments Z.land : simpl never.
 
 (* ---- Iter.Scan ---------------------------------------------------------------------------------------- *)
-(* marshal.go readBytes after the caller's len(data) >= 4 test: the only crash is the unchecked field length *)
-Lemma tuple_read_bytes_guarded s b : In CTupleField s -> wf_bytes b -> 4 <= blen b ->
+(* marshal.go readBytes after the caller's len(data) >= 4 test *)
+Lemma tuple_read_bytes_guarded s b : wf_bytes b -> 4 <= blen b ->
   match out tuple_read_bytes b with
   | Ok (o, b') => wf_opt o /\ suffix_of b' b
   | Err _ => True
   | Crash c => In c s
   end.
 Proof.
-  intros Hin Hb H4. unfold tuple_read_bytes. rewrite out_bind. unfold rbind. rewrite out_take_ok by lia.
-  set (size := signed 32 (be_dec (firstn (Z.to_nat 4) b))). destruct (size <? 0).
+  intros Hb H4. unfold tuple_read_bytes. rewrite out_bind. unfold rbind. rewrite out_take_ok by lia.
+  set (size := signed 32 (be_dec (firstn (Z.to_nat 4) b))). destruct (Z.ltb_spec size 0) as [Hn|Hn].
   - rewrite out_ret. split; [exact I|]. exists (Z.to_nat 4). reflexivity.
-  - rewrite out_bind. unfold rbind.
-    pose proof (good_take_site s CTupleField size Hin (skipn (Z.to_nat 4) b) (wf_skipn _ _ Hb)) as G.
-    destruct (out (take CTupleField size) (skipn (Z.to_nat 4) b)) as [[x b']|e|c]; try assumption.
-    rewrite out_ret. destruct G as [Hx Hs]. split; [exact Hx|]. eapply suffix_trans; [eassumption|]. exists (Z.to_nat 4). reflexivity.
+  - rewrite out_bind. unfold rbind. rewrite out_get_len.
+    destruct (Z.ltb_spec (blen (skipn (Z.to_nat 4) b)) size) as [Hlt|Hge]; [exact I|].
+    rewrite out_bind. unfold rbind. rewrite out_take_ok by lia. rewrite out_ret.
+    split; [apply wf_firstn, wf_skipn, Hb|]. eapply suffix_trans; [exists (Z.to_nat size); reflexivity | exists (Z.to_nat 4); reflexivity].
 Qed.
 
-Lemma good_unmarshal_tuple_cells s elems : In CTupleField s -> good s (fun _ => True) (unmarshal_tuple_cells elems).
+Lemma good_unmarshal_tuple_cells s elems : good s (fun _ => True) (unmarshal_tuple_cells elems).
 Proof.
-  intros Hin. induction elems as [|e elems IH]; cbn [unmarshal_tuple_cells]; [apply good_ret; exact I|].
+  induction elems as [|e elems IH]; cbn [unmarshal_tuple_cells]; [apply good_ret; exact I|].
   intros b Hb. rewrite out_bind. unfold rbind. rewrite out_get_len. rewrite out_bind. unfold rbind.
   destruct (Z.geb_spec (blen b) 4) as [H4|H4].
-  - pose proof (tuple_read_bytes_guarded s b Hin Hb H4) as G.
+  - pose proof (tuple_read_bytes_guarded s b Hb H4) as G.
     destruct (out tuple_read_bytes b) as [[o b1]|er|c]; try assumption. destruct G as [_ Hs1].
     rewrite out_bind. unfold rbind. specialize (IH b1 (suffix_wf _ _ Hs1 Hb)).
     destruct (out (unmarshal_tuple_cells elems) b1) as [[cs b2]|er|c]; try assumption.
@@ -52,63 +52,45 @@ Proof.
   destruct (out p data) as [[a r]|e|c]; try assumption. split; [exact I | apply suffix_refl].
 Qed.
 
-Lemma good_read_column s : In CScanPanic s -> good s wf_opt read_column.
-Proof.
-  intros Hin. unfold read_column. eapply good_bind; [apply good_get_len|]. intros l _.
-  destruct (l <? 4); [apply good_crash, Hin | apply good_read_bytes].
-Qed.
+Lemma good_read_column s : good s wf_opt read_column.
+Proof. unfold read_column. apply good_read_bytes. Qed.
 
-Definition scan_sites : list crashc := [CScanPanic; CScanDest; CTupleField].
-
-Lemma good_scan_cols cols : forall avail, good scan_sites (fun _ => True) (scan_cols cols avail).
+Lemma good_scan_cols s cols : forall avail, good s (fun _ => True) (scan_cols cols avail).
 Proof.
   induction cols as [|c cols IH]; intros avail; cbn [scan_cols]; [apply good_ret; exact I|].
-  eapply good_bind; [apply good_read_column; left; reflexivity|]. intros data Hd.
-  destruct (avail <=? 0); [apply good_crash; right; left; reflexivity|].
+  eapply good_bind; [apply good_read_column|]. intros data Hd.
+  destruct (avail <=? 0).
+  { destruct (c_type c) as [typ cu|typ cu k e|cu elems|cu ks nm fs]; try apply good_fail.
+    destruct elems; [apply IH | apply good_fail]. }
   destruct (c_type c) as [typ cu|typ cu k e|cu elems|cu ks nm fs];
     try (eapply good_bind; [apply IH|]; intros more _; apply good_ret; exact I).
-  destruct (Z.of_nat (length elems) >? avail); [apply good_crash; right; left; reflexivity|].
+  destruct (Z.of_nat (length elems) >? avail); [apply good_fail|].
   eapply good_bind.
-  { apply good_on_cell; [destruct data; [exact Hd | constructor] | apply good_unmarshal_tuple_cells; right; right; left; reflexivity]. }
+  { apply good_on_cell; [destruct data; [exact Hd | constructor] | apply good_unmarshal_tuple_cells]. }
   intros cs _. eapply good_bind; [apply IH|]. intros more _. apply good_ret. exact I.
 Qed.
 
-Lemma good_scan_row m ndest : good scan_sites (fun _ => True) (scan_row m ndest).
+Lemma good_scan_row s m ndest : good s (fun _ => True) (scan_row m ndest).
 Proof. unfold scan_row. destruct (negb (ndest =? m_actual m)); [apply good_fail | apply good_scan_cols]. Qed.
 
-(* rows without tuple columns, scanned into at least as many destinations as there are columns: the
-   only crash left is the body that ends before the declared rows do *)
-Definition no_tuple (c : col) : Prop := match c_type c with TTuple _ _ => False | _ => True end.
+(* a sequence of Scan calls never panics; the buffer stays a suffix *)
+Definition no_panic (o : scan_out) : Prop := match o with SPanic _ => False | _ => True end.
 
-Lemma good_scan_cols_no_tuple cols : Forall no_tuple cols -> forall avail, Z.of_nat (length cols) <= avail ->
-  good [CScanPanic] (fun _ => True) (scan_cols cols avail).
-Proof.
-  induction 1 as [|c cols Hc Hcols IH]; intros avail Ha; cbn [scan_cols]; [apply good_ret; exact I|].
-  eapply good_bind; [apply good_read_column; left; reflexivity|]. intros data Hd.
-  simpl length in Ha. destruct (Z.leb_spec avail 0); [lia|].
-  unfold no_tuple in Hc. destruct (c_type c); try contradiction;
-    (eapply good_bind; [apply IH; lia|]; intros more _; apply good_ret; exact I).
-Qed.
-
-(* a sequence of Scan calls: every panic is at one of the three sites; the buffer stays a suffix *)
-Definition out_ok (sites : list crashc) (o : scan_out) : Prop := match o with SPanic c => In c sites | _ => True end.
-
-Lemma iter_scans_sites k : forall m nrows ndest it, wf_bytes (it_buf it) ->
-  Forall (out_ok scan_sites) (iter_scans k m nrows ndest it).
+Lemma iter_scans_safe k : forall m nrows ndest it, wf_bytes (it_buf it) ->
+  Forall no_panic (iter_scans k m nrows ndest it).
 Proof.
   induction k as [|k IH]; intros m nrows ndest it Hw; cbn [iter_scans]; [constructor|].
   unfold iter_scan. destruct (it_err it) as [e|].
   { constructor; [exact I | apply IH, Hw]. }
   destruct (it_pos it >=? nrows).
   { constructor; [exact I | apply IH, Hw]. }
-  pose proof (good_scan_row m ndest (it_buf it) Hw) as G.
+  pose proof (good_scan_row [] m ndest (it_buf it) Hw) as G.
   destruct (out (scan_row m ndest) (it_buf it)) as [[cells b']|e|c].
   - destruct G as [_ Hs]. constructor; [exact I|]. apply IH. cbn [it_buf]. eapply suffix_wf; eassumption.
   - constructor; [exact I|]. apply IH. exact Hw.
-  - constructor; [exact G | constructor].
+  - destruct G.
 Qed.
 
-(* ---- goType / RowData -------------------------------------------------------------------------------------- *)
 Section tinfo_induction.
   Variable Q : tinfo -> Prop.
   Hypothesis Hn : forall typ c, Q (TNative typ c).
@@ -135,8 +117,8 @@ Section tinfo_induction.
     end.
 End tinfo_induction.
 
-(* goType panics only in reflect.MapOf, for types as the parser builds them *)
-Lemma go_type_sites t : tinfo_ok t -> forall c, go_type t = Crash c -> c = CMapKey.
+(* goType never panics on the types readTypeInfo builds (a map with a key type Go cannot use is an error) *)
+Lemma go_type_safe t : tinfo_ok t -> forall c, go_type t <> Crash c.
 Proof.
   induction t as [typ cu | typ cu k e IHk IHe | cu es IH | cu ks n fs IH] using tinfo_ind2; intros Hok c Hc; cbn [go_type] in Hc.
   - destruct Hok as (H1 & H2 & H3 & H4 & H5).
@@ -147,21 +129,19 @@ Proof.
   - destruct Hok as (Ht & Hk & He). destruct (Z.eqb_spec typ K.TypeMap) as [Em|Em].
     + destruct k as [k'|]; [|exfalso; apply Hk, Em]. destruct Hk as [_ Hk'].
       destruct (go_type k') as [kc|ek|ck] eqn:Ek.
-      * destruct (go_type e) as [ec|ee|ce] eqn:Ee.
-        -- destruct kc; [discriminate|]. inversion Hc. reflexivity.
-        -- discriminate.
-        -- inversion Hc; subst. apply (IHe He). reflexivity.
+      * destruct kc; [|discriminate]. destruct (go_type e) as [ec|ee|ce] eqn:Ee; try discriminate.
+        inversion Hc; subst. eapply (IHe He). reflexivity.
       * discriminate.
-      * inversion Hc; subst. apply (IHk k' eq_refl Hk'). exact Ek.
-    + destruct (go_type e) as [ec|ee|ce] eqn:Ee; try discriminate. inversion Hc; subst. apply (IHe He). reflexivity.
+      * inversion Hc; subst. eapply (IHk k' eq_refl Hk'). exact Ek.
+    + destruct (go_type e) as [ec|ee|ce] eqn:Ee; try discriminate. inversion Hc; subst. eapply (IHe He). reflexivity.
   - discriminate.
   - discriminate.
 Qed.
 
-Lemma go_types_sites ts : Forall tinfo_ok ts -> forall c, go_types ts = Crash c -> c = CMapKey.
+Lemma go_types_safe ts : Forall tinfo_ok ts -> forall c, go_types ts <> Crash c.
 Proof.
   induction 1 as [|t ts Ht Hts IH]; intros c Hc; cbn [go_types] in Hc; [discriminate|].
-  destruct (go_type t) as [x|e|c'] eqn:E; try discriminate; [apply IH, Hc|]. inversion Hc; subst. eapply go_type_sites; eassumption.
+  destruct (go_type t) as [x|e|c'] eqn:E; try discriminate; [eapply IH, Hc|]. eapply go_type_safe; eassumption.
 Qed.
 
 Lemma tinfo_ok_tuple cu es : tinfo_ok (TTuple cu es) <-> Forall tinfo_ok es.
@@ -173,74 +153,67 @@ Proof.
     + intros H. inversion H; subst. split; [assumption | apply IH; assumption].
 Qed.
 
-Lemma row_data_sites cols : Forall (fun c => tinfo_ok (c_type c)) cols -> forall c, row_data cols = Crash c -> c = CMapKey.
+Lemma row_data_safe cols : Forall (fun c => tinfo_ok (c_type c)) cols -> forall c, row_data cols <> Crash c.
 Proof.
   induction 1 as [|cl cols Hc Hcols IH]; intros c Hcr; cbn [row_data] in Hcr; [discriminate|].
   destruct (c_type cl) as [typ cu|typ cu k e|cu es|cu ks n fs] eqn:Et.
-  - destruct (go_type (TNative typ cu)) as [x|e0|c0] eqn:Eg; [| discriminate | inversion Hcr; subst; eapply go_type_sites; eassumption].
-    destruct (row_data cols) as [nm|e1|c1]; try discriminate. inversion Hcr; subst. apply IH. reflexivity.
-  - destruct (go_type (TColl typ cu k e)) as [x|e0|c0] eqn:Eg; [| discriminate | inversion Hcr; subst; eapply go_type_sites; eassumption].
-    destruct (row_data cols) as [nm|e1|c1]; try discriminate. inversion Hcr; subst. apply IH. reflexivity.
-  - destruct (go_types es) as [x|e0|c0] eqn:Eg; [| discriminate | inversion Hcr; subst; eapply go_types_sites; [|eassumption]; apply (tinfo_ok_tuple cu); assumption].
-    destruct (row_data cols) as [nm|e1|c1]; try discriminate. inversion Hcr; subst. apply IH. reflexivity.
-  - destruct (go_type (TUDT cu ks n fs)) as [x|e0|c0] eqn:Eg; [| discriminate | inversion Hcr; subst; eapply go_type_sites; eassumption].
-    destruct (row_data cols) as [nm|e1|c1]; try discriminate. inversion Hcr; subst. apply IH. reflexivity.
+  - destruct (go_type (TNative typ cu)) as [x|e0|c0] eqn:Eg; [| discriminate | eapply go_type_safe; eassumption].
+    destruct (row_data cols) as [nm|e1|c1]; try discriminate. eapply IH. reflexivity.
+  - destruct (go_type (TColl typ cu k e)) as [x|e0|c0] eqn:Eg; [| discriminate | eapply go_type_safe; eassumption].
+    destruct (row_data cols) as [nm|e1|c1]; try discriminate. eapply IH. reflexivity.
+  - destruct (go_types es) as [x|e0|c0] eqn:Eg; [| discriminate | eapply go_types_safe; [|eassumption]; apply (tinfo_ok_tuple cu); assumption].
+    destruct (row_data cols) as [nm|e1|c1]; try discriminate. eapply IH. reflexivity.
+  - destruct (go_type (TUDT cu ks n fs)) as [x|e0|c0] eqn:Eg; [| discriminate | eapply go_type_safe; eassumption].
+    destruct (row_data cols) as [nm|e1|c1]; try discriminate. eapply IH. reflexivity.
 Qed.
-
-(* a map key of one of these shapes is what makes reflect.MapOf panic *)
-Definition map_key_uncomparable (k : tinfo) : Prop :=
-  match k with
-  | TNative typ _ => typ = K.TypeBlob \/ typ = K.TypeUDT
-  | _ => True
-  end.
 
 (* ---- the Scanner API ------------------------------------------------------------------------------------- *)
-Definition scanner_sites : list crashc := [CScanPanic; CScanDest; CTupleField; CScannerIdx].
-
-Lemma good_read_cells s cols : In CScanPanic s -> good s (Forall wf_opt) (read_cells cols).
+Lemma good_read_cells s cols : good s (fun cells => Forall wf_opt cells /\ length cells = length cols) (read_cells cols).
 Proof.
-  intros Hin. induction cols as [|c cols IH]; cbn [read_cells]; [apply good_ret; constructor|].
-  eapply good_bind; [apply good_read_column, Hin|]. intros d Hd. eapply good_bind; [apply IH|]. intros ds Hds.
-  apply good_ret. constructor; assumption.
+  induction cols as [|c cols IH]; cbn [read_cells]; [apply good_ret; split; [constructor | reflexivity]|].
+  eapply good_bind; [apply good_read_column|]. intros d Hd. eapply good_bind; [apply IH|]. intros ds [Hds Hl].
+  apply good_ret. split; [constructor; assumption | simpl; rewrite Hl; reflexivity].
 Qed.
 
-Lemma scanner_cols_sites : forall cols cells i avail c, Forall wf_opt cells ->
-  scanner_cols cols cells i avail = Crash c -> In c scanner_sites.
+Lemma scanner_cols_safe : forall cols cells avail c, Forall wf_opt cells -> length cells = length cols ->
+  scanner_cols cols cells avail <> Crash c.
 Proof.
-  induction cols as [|cl cols IH]; intros cells i avail c Hw Hc; cbn [scanner_cols] in Hc; [discriminate|].
-  destruct (nth_error cells i) as [data|] eqn:En; [|inversion Hc; right; right; right; left; reflexivity].
-  destruct (avail <=? 0); [inversion Hc; right; left; reflexivity|].
-  assert (Hd : wf_bytes (opt_bytes data)).
-  { apply nth_error_In in En. rewrite Forall_forall in Hw. specialize (Hw _ En). destruct data; [exact Hw | constructor]. }
+  induction cols as [|cl cols IH]; intros cells avail c Hw Hl Hc; cbn [scanner_cols] in Hc; [discriminate|].
+  destruct cells as [|data cells']; [simpl in Hl; discriminate|]. inversion Hw as [|? ? Hd Hw']; subst. simpl in Hl.
+  assert (Hl' : length cells' = length cols) by lia.
+  assert (Hdb : wf_bytes (opt_bytes data)) by (destruct data; [exact Hd | constructor]).
+  destruct (avail <=? 0).
+  { destruct (c_type cl) as [typ cu|typ cu k e|cu es|cu ks n fs]; try discriminate.
+    destruct es; [eapply IH; eassumption | discriminate]. }
   destruct (c_type cl) as [typ cu|typ cu k e|cu es|cu ks n fs].
-  1,2,4: destruct (scanner_cols cols cells (S i) (avail - 1)) as [more|e0|c0] eqn:Er;
+  1,2,4: destruct (scanner_cols cols cells' (avail - 1)) as [more|e0|c0] eqn:Er;
     try discriminate; inversion Hc; subst; eapply IH; eassumption.
-  destruct (Z.of_nat (length es) >? avail); [inversion Hc; right; left; reflexivity|].
-  pose proof (good_unmarshal_tuple_cells scanner_sites es ltac:(right; right; left; reflexivity) (opt_bytes data) Hd) as G.
+  destruct (Z.of_nat (length es) >? avail); [discriminate|].
+  pose proof (good_unmarshal_tuple_cells [] es (opt_bytes data) Hdb) as G.
   destruct (out (unmarshal_tuple_cells es) (opt_bytes data)) as [[cs r]|e0|c0].
-  - destruct (scanner_cols cols cells (i + length es) (avail - Z.of_nat (length es))) as [more|e1|c1] eqn:Er; try discriminate.
+  - destruct (scanner_cols cols cells' (avail - Z.of_nat (length es))) as [more|e1|c1] eqn:Er; try discriminate.
     inversion Hc; subst. eapply IH; eassumption.
   - discriminate.
-  - inversion Hc; subst. exact G.
+  - destruct G.
 Qed.
 
-Lemma scanner_steps_sites k : forall m nrows ndest it, wf_bytes (it_buf it) ->
-  Forall (out_ok scanner_sites) (scanner_steps k m nrows ndest it).
+Lemma scanner_steps_safe k : forall m nrows ndest it, wf_bytes (it_buf it) ->
+  Forall no_panic (scanner_steps k m nrows ndest it).
 Proof.
   induction k as [|k IH]; intros m nrows ndest it Hw; cbn [scanner_steps]; [constructor|].
   unfold scanner_step. destruct (it_err it) as [e|].
   { constructor; [exact I | apply IH, Hw]. }
   destruct (it_pos it >=? nrows).
   { constructor; [exact I | apply IH, Hw]. }
-  pose proof (good_read_cells scanner_sites (m_cols m) ltac:(left; reflexivity) (it_buf it) Hw) as G.
+  pose proof (good_read_cells [] (m_cols m) (it_buf it) Hw) as G.
   destruct (out (read_cells (m_cols m)) (it_buf it)) as [[cells b']|e|c].
-  - destruct G as [Hcells Hs]. pose proof (suffix_wf _ _ Hs Hw) as Hw'.
+  - destruct G as [[Hcells Hlen] Hs]. pose proof (suffix_wf _ _ Hs Hw) as Hw'.
     destruct (negb (ndest =? m_actual m)).
     { constructor; [exact I | apply IH; exact Hw']. }
-    destruct (scanner_cols (m_cols m) cells 0 ndest) as [cs|e|c] eqn:Es.
+    destruct (scanner_cols (m_cols m) cells ndest) as [cs|e|c] eqn:Es.
     + constructor; [exact I | apply IH; exact Hw'].
     + constructor; [exact I | apply IH; exact Hw'].
-    + constructor; [eapply scanner_cols_sites; eassumption | constructor].
+    + exfalso. eapply scanner_cols_safe; eassumption.
   - constructor; [exact I | apply IH; exact Hw].
-  - constructor; [exact G | constructor].
+  - destruct G.
 Qed.
